@@ -9,10 +9,12 @@ from props import _tempo
 
 
 def _direct(c):
-    ts = {-1, -5, 0}
-    for it in c["sync"]:
-        if it[0] == "B":
-            ts |= {it[1], it[1] + 1, max(0, it[1] - 1), it[1] + 1000}
+    ts = {-1, -5, -10**6, 0}
+    bs = [it for it in c["sync"] if it[0] == "B"]
+    if len(bs) > 24:        # long maps: the first, the last and every n-th tempo event
+        bs = bs[:4] + bs[4:-4:max(1, len(bs) // 16)] + bs[-4:]
+    for it in bs:
+        ts |= {it[1], it[1] + 1, max(0, it[1] - 1), it[1] + 1000}
     return sorted(ts)
 
 
@@ -91,6 +93,32 @@ def run(ctx):
                     cases.append(c)
                     k += 1
     _tempo.judge(ctx, cases, "C15", "zero tempo x event kind x placement", direct=_direct)
+    # long tempo maps (tens to thousands of tempo events): negative ticks, a zero tempo early / in the middle / last, and
+    # the single corruptions, whatever the size of the map
+    cases = []
+    sizes = [31, 32, 33, 64, 100, 257] + ([1000, 2049] if ctx.tier == "thorough" else []) + [r.randrange(8, 400) for _ in range(ctx.pick(6, 60))]
+    for k, nt_ in enumerate(sizes):
+        t, tempo = 0, []
+        for j in range(nt_):
+            tempo.append([t, r.choice([60000, 120000, 90500, 200000, r.randrange(1000, 10**6)])])
+            t += r.randrange(1, 400)
+        pts = sorted({0, 1, t, t + 500} | {tempo[j][0] + d for j in r.sample(range(nt_), min(nt_, 12)) for d in (0, 1)})
+        base = tm.chart_case_from_map(r, f"C15-long{k}", 192, tempo, pts)
+        cases.append(base)
+        import copy
+        for name, j in (("first", 0), ("mid", nt_ // 2), ("last", nt_ - 1)):
+            c = copy.deepcopy(base)
+            c["id"] = f"C15-long{k}-zero-{name}"
+            bs = [i for i, it in enumerate(c["sync"]) if it[0] == "B"]
+            c["sync"][bs[j]] = ("B", c["sync"][bs[j]][1], 0)
+            cases.append(c)
+        c = copy.deepcopy(base)
+        c["id"] = f"C15-long{k}-dup"
+        bs = [i for i, it in enumerate(c["sync"]) if it[0] == "B"]
+        j = r.randrange(1, nt_)
+        c["sync"][bs[j]] = ("B", c["sync"][bs[j - 1]][1], c["sync"][bs[j]][2])
+        cases.append(c)
+    _tempo.judge(ctx, cases, "C15", "long tempo maps: negative ticks and corruptions", direct=_direct)
     ctx.exhaustive = False
     ctx.assumptions += [
         "'Resolution = 0' is the only non-positive resolution the file format can express (a sign does not match the field)",
